@@ -34,7 +34,7 @@ def gen_cases(rng, tier):
     for s in H.pair_scripts(rng):
         yield {'tag': 'pairs', 'script': s}
     g = H.Gen(rng)
-    n = 600 if tier == 'quick' else 12000
+    n = 2500 if tier == 'quick' else 12000
     for i in range(n):
         depth = rng.choice([1, 2, 3]) if tier == 'quick' else rng.choice([2, 3, 4, 6])
         yield {'tag': 'random', 'script': g.script(depth=depth)}
